@@ -19,8 +19,6 @@ C14_EXCEPTIONS = {
         _TABLES,
     'c14.panic|bemodel::energy::radiation::<impl types::model::Model>::compute_fshobst|unwrap|HashMap::get(unwrap(Mutex::lock(CLIMATEMETADATA)),self.meta.climate)':
         _TABLES,
-    'c14.panic|bemodel::energy::radiation::<impl types::model::Model>::compute_fshobst|Index::index|map[].1.fshdir[Range{..}[]]':
-        "fshdir, dir and dif of an ObstData entry are pushed together (three pushes in one block), so they have equal length and i < fshdir.len()",
     'c14.panic|bemodel::energy::radiation::<impl types::model::Model>::compute_fshobst|Index::index|map[].1.dir[Range{..}[]]':
         "fshdir, dir and dif of an ObstData entry are pushed together (three pushes in one block), so they have equal length and i < fshdir.len()",
     'c14.panic|bemodel::energy::radiation::<impl types::model::Model>::compute_fshobst|Index::index|map[].1.dif[Range{..}[]]':
